@@ -400,6 +400,12 @@ func (g *gctx) stmt() []*Stmt {
 		case 2:
 			d.T = "var-typed" // var x int = e
 			g.prog.tag("var-decl")
+		case 3:
+			// x, p := e, 7: declares (or, next to an earlier declaration in the same scope, would re-use) x together with a new name
+			d.T = "pair"
+			d.Name2 = g.fresh("p")
+			g.declare(vinfo{name: d.Name2, typ: "int", ro: true})
+			g.prog.tag("pair-decl")
 		}
 		return []*Stmt{d}
 	case "assign":
